@@ -611,3 +611,101 @@ def t_history(t):
 
 
 KINDS.update({"history": t_history})
+
+
+# ---------------------------------------------------------------- C06 / C07: Max-SMT back end with z3 as stand-in
+def t_smt(t):
+    """for every small specification of a block: the emitted SMT-LIB text, z3's verdict on it, the decoded optimum,
+    and further models of the hard constraints (blocking clauses on the t_j variables) decoded with theta_to_instr"""
+    import copy, subprocess, tempfile, re as _re
+    from smt_encoding.block_optimizer import BlockOptimizer
+    from smt_encoding.solver.solver import OptimizeOutcome
+    p = params_for(t["opts"])
+    r = {"text": t["text"], "opts": t["opts"], "subs": []}
+    try:
+        bs = impl.parse_block(t["text"])
+        b = bs[0]
+        with impl.quiet():
+            d, subs = impl.gasol_asm.compute_original_sfs_with_simplifications(b, p)
+    except Exception as ex:
+        r["exception"] = "%s: %s" % (type(ex).__name__, ex)
+        return r
+    stripped = impl.gasol_asm.process_blocks_split(subs)
+    for k, sb in enumerate(stripped):
+        name = "%s_%d" % (b.block_name, k)
+        spec = d["syrup_contract"].get(name)
+        if spec is None or not sb or spec["init_progr_len"] > t.get("max_len", 6) or spec["init_progr_len"] == 0:
+            continue
+        e = {"name": name, "plain": sb, "b0": spec["init_progr_len"], "max_sk_sz": spec["max_sk_sz"]}
+        try:
+            sbb = impl.gasol_asm.generate_block_from_plain_instructions(" ".join(sb), "x")
+            e["spec"] = ser_spec(spec, [(i.disasm, i.value) for i in sbb.instructions])
+            e["costs"] = {u["id"]: [u["gas"], u["size"]] for u in spec["user_instrs"]}
+            e["ids"] = [u["id"] for u in spec["user_instrs"]]
+        except Exception as ex:
+            e["unsupported"] = str(ex)
+            r["subs"].append(e)
+            continue
+        try:
+            with impl.quiet():
+                opt = BlockOptimizer(name, copy.deepcopy(spec), p, t.get("tout", 5))
+                outcome, tm, ids = opt.optimize_block()
+            # the text the tool handed to the solver (written by check_sat)
+            text = open(opt._encoding_file).read()
+            lines = text.split("\n")
+            e["smt2_len"] = len(text)
+            fe = opt._full_encoding
+            bounds = fe._bounds
+            tvars = ["t_%d" % j for j in range(bounds.first_position_sequence, bounds.last_position_sequence + 1)]
+            theta = {str(v): ins.id for v, ins in fe.theta_to_instr.items()}
+            e["theta"] = theta
+            uf = p.encode_terms == "uninterpreted_uf"
+            e["outcome"] = outcome.name
+            e["opt_ids"] = list(ids) if ids is not None else None
+            e["soft"] = [l for l in lines if l.startswith("(assert-soft")][:200]
+            # hard constraints only: drop soft assertions / objectives, enumerate models
+            hard = [l for l in lines if not l.startswith("(assert-soft") and not l.startswith("(minimize") and
+                    not l.startswith("(check-sat") and not l.startswith("(get-") and not l.startswith("(set-option :timeout")]
+            names = tvars + (["theta_%s" % v for v in theta] if uf else [])
+            models, blocks_ = [], []
+            z3errors = None
+            for it in range(t.get("models", 6)):
+                script = "\n".join(hard + blocks_ + ["(check-sat)", "(get-value (%s))" % " ".join(names)])
+                with tempfile.NamedTemporaryFile("w", suffix=".smt2", delete=False) as f:
+                    f.write(script)
+                    fn = f.name
+                try:
+                    out = subprocess.run(["/usr/bin/z3", "-T:10", "-smt2", fn], capture_output=True, text=True, timeout=20).stdout
+                finally:
+                    os.remove(fn)
+                errs = [l for l in out.split("\n") if "(error" in l and "model is not available" not in l]
+                if errs and z3errors is None:
+                    z3errors = "\n".join(errs)[:400]
+                if not out.startswith("sat"):
+                    if it == 0:
+                        e["hard_status"] = out.split("\n")[0]
+                    break
+                e["hard_status"] = "sat"
+                vals = dict(_re.findall(r"\(([A-Za-z_][\w!]*) ([^()\s]+|\(- \d+\))\)", out))
+                if uf:
+                    inv = {vals.get("theta_%s" % v): i for v, i in theta.items()}
+                    seq = [inv.get(vals.get(tv)) for tv in tvars]
+                else:
+                    seq = [theta.get(vals.get(tv)) for tv in tvars]
+                models.append(seq)
+                if uf:
+                    invn = {vals.get("theta_%s" % v): "theta_%s" % v for v in theta}
+                    blocks_.append("(assert (not (and %s)))" % " ".join("(= %s %s)" % (tv, invn[vals[tv]]) for tv in tvars if vals.get(tv) in invn))
+                else:
+                    blocks_.append("(assert (not (and %s)))" % " ".join("(= %s %s)" % (tv, vals[tv]) for tv in tvars if tv in vals))
+            e["models"] = models
+            e["z3errors"] = z3errors
+        except Exception as ex:
+            import traceback
+            e["exception"] = "%s: %s" % (type(ex).__name__, ex)
+            e["tb"] = traceback.format_exc()[-600:]
+        r["subs"].append(e)
+    return r
+
+
+KINDS.update({"smt": t_smt})
